@@ -98,9 +98,25 @@ func (c *vClient) StoreDocuments(_ context.Context, count int, docs, metas []byt
 // in order, IDs timed by rule), or - if any line is not valid JSON or the stores fail - not
 // acknowledged at all; non-object lines are skipped without disturbing their neighbours.
 func VerifIngest() {
-	n := rt.Param("DOCS")
 	drift, future := time.Duration(rt.NondetI64()), time.Duration(rt.NondetI64())
 	rt.Assume(rt.And(drift >= 0, future >= 0))
+	rate := make(chan struct{}, 1)
+	rate <- struct{}{}
+	ing := &Ingestor{
+		config:    IngestorConfig{MaxInflightBulks: 1, AllowedTimeDrift: drift, FutureAllowedTimeDrift: future, MappingProvider: vMapping{}},
+		rateLimit: rate,
+		procPool:  &sync.Pool{},
+		inflight:  &atomic.Int64{}, bulks: &atomic.Int64{}, docs: &atomic.Int64{}, took: &atomic.Int64{}, stopped: &atomic.Bool{},
+	}
+	// several requests through the same ingestor (its pooled buffers and processors are re-used)
+	for r := 0; r < rt.Param("REQUESTS"); r++ {
+		vOneRequest(ing, drift, future)
+	}
+	rt.Reach("end")
+}
+
+func vOneRequest(ing *Ingestor, drift, future time.Duration) {
+	n := rt.Param("DOCS")
 	vDocs, vCur = nil, nil
 	for i := 0; i < n; i++ {
 		d := &vDocSpec{bytes: rt.NondetBytes(1 + rt.Choose(rt.Param("MAXLEN"))), outcome: rt.NondetU8(), found: rt.NondetBool(), delay: time.Duration(rt.NondetI64()), rnd: rt.NondetU64()}
@@ -108,15 +124,7 @@ func VerifIngest() {
 		vDocs = append(vDocs, d)
 	}
 	cl := &vClient{fail: rt.NondetBool()}
-	rate := make(chan struct{}, 1)
-	rate <- struct{}{}
-	ing := &Ingestor{
-		config:    IngestorConfig{MaxInflightBulks: 1, AllowedTimeDrift: drift, FutureAllowedTimeDrift: future, MappingProvider: vMapping{}},
-		client:    cl,
-		rateLimit: rate,
-		procPool:  &sync.Pool{},
-		inflight:  &atomic.Int64{}, bulks: &atomic.Int64{}, docs: &atomic.Int64{}, took: &atomic.Int64{}, stopped: &atomic.Bool{},
-	}
+	ing.client = cl
 	next := 0
 	total, err := ing.ProcessDocuments(context.Background(), vReq, func() ([]byte, error) {
 		if next == len(vDocs) {
@@ -194,5 +202,5 @@ func VerifIngest() {
 		rt.Assert(int(md.Size) == len(d.bytes), "metadata size = document size")
 	}
 	rt.Assert(len(metas) == 0, "one metadata record per stored document")
-	rt.Reach("end")
+	rt.Reach("request-stored")
 }
